@@ -312,7 +312,7 @@ def order_extra(ctx, scale, res, files, model_obs, impl_obs):
     res.distribution["order sprites"] = len(ofiles)
 
 
-def wf_routine(prefixes, gens, rule, oracle=must_load_oracle, corpus=True, extra=None, spec_backed=None, big=()):
+def wf_routine(prefixes, gens, rule, oracle=must_load_oracle, corpus=True, extra=None, spec_backed=None, big=("layers", "frames"), shared=True):
     def run(ctx, scale):
         res = Result(rule)
         rng = random.Random(ctx.seed * 7919 + scale)
@@ -356,6 +356,10 @@ def wf_routine(prefixes, gens, rule, oracle=must_load_oracle, corpus=True, extra
                                             "call": "whole-API observation, optimised build vs build with overflow checks + debug assertions",
                                             "what": f"the build with overflow checks and debug assertions reports `{d[2][:300]}` "
                                                     f"where the optimised build reports `{d[1][:300]}`"})
+        # families shared by every routine that looks at images: composition order, shortcut bait,
+        # repeated pixel pairs (a change anywhere in the compositor breaks each of these properties)
+        if shared and scale == 1 and extra is not order_extra and any(p in prefixes for p in ("frameimg", "celA")):
+            order_extra(ctx, scale, res, files, model_obs, impl_obs)
         if extra:
             extra(ctx, scale, res, files, model_obs, impl_obs)
         return res
@@ -372,7 +376,7 @@ def malformed_inputs(ctx, scale, rng):
     leg, _, gapbad = gap_index_cases(ctx, scale, 40 if ctx.quick else 400)
     base += gen + gen2 + leg[:20]
     n = (6000 if ctx.quick else 300000) * scale
-    files = vlib.verif_corpus() + vlib.verif_corpus_wf() + gapbad + structure_cases()
+    files = vlib.verif_corpus() + vlib.verif_corpus_wf(include_big=True) + gapbad + structure_cases()
     files += vlib.sample_mutants(base, rng, n)
     files += vlib.noise_cases(base, rng, n // 6)
     # byte changes deep inside compressed payloads (cels, tilemaps, tilesets): corrupt deflate data
@@ -639,12 +643,11 @@ def register(pid, run, **kw):
 register("C01", wf_routine(STRUCT, [("struct", 300, 20000), ("plain", 100, 2000), ("large", 6, 150)],
          "corpus files + type-directed generated well-formed programs (all attribute ranges); "
          "distinct = distinct structure observations of loaded sprites",
-         spec_backed="C01.decode_encode / loaded_layers / loaded_slices / loaded_tags / sprite_frameTimes and the per-chunk round trips",
-         big=("frames",)))
+         spec_backed="C01.decode_encode / loaded_layers / loaded_slices / loaded_tags / sprite_frameTimes and the per-chunk round trips"))
 register("C02", wf_routine(RENDER, [("render", 300, 10000), ("struct", 100, 2000), ("large", 6, 100)],
          "generated layer stacks (19 blend modes, opacities, hidden layers/groups, linked, tilemap, "
          "off-canvas cels); distinct = distinct frame-image observations",
-         spec_backed="C02.frameImage_spec (point-wise composition) with C03.blend_eq_ref", big=("layers",), extra=order_extra))
+         spec_backed="C02.frameImage_spec (point-wise composition) with C03.blend_eq_ref", extra=order_extra))
 register("C06", wf_routine(CELS, [("rgba", 120, 3000), ("gray", 120, 3000), ("indexed", 160, 4000), ("large", 6, 100)],
          "generated sprites in each pixel format (sparse palettes, alpha<255, all transparent-index "
          "values, background flag, raw and zlib, links); distinct = distinct cel observations",
@@ -674,7 +677,7 @@ def c19_extra(ctx, scale, res, files, model_obs, impl_obs):
 register("C19", wf_routine(CELS + RENDER + ["tilemap"], [("render", 200, 5000), ("tiles", 100, 3000), ("large", 4, 60)],
          "generated sprites with frames != layers; the three cel routes, single-layer frames, tilemap images",
          spec_backed="the model's single cel function of (frame, layer) + C19.single_layer_frame_eq_cel / tilemap_view_cel",
-         extra=c19_extra, big=("layers",)))
+         extra=c19_extra))
 register("C04", malformed_routine(no_panic_oracle, [], "field-aware boundary mutations (single and paired) of "
          "corpus and generated files, truncations, noise, in release and release+overflow-checks+"
          "debug-assertions builds; distinct = distinct (input kind, outcome) pairs", True),
@@ -792,7 +795,7 @@ def blend_routine(laws, rule):
         # sparse high layer indices): the blend functions as the compositor calls them
         if scale == 1:
             gen = wf_routine(["frameimg", "celA", "tilemap", "tileimg"], [("render", 120, 3000), ("tiles", 60, 1500), ("rgba", 40, 1000)], "",
-                             corpus=False, spec_backed="C02.frameImage_spec / C06.celImage_spec / C08.tilemapImage_spec with C03.blend_eq_ref")(ctx, scale)
+                             corpus=False, shared=False, spec_backed="C02.frameImage_spec / C06.celImage_spec / C08.tilemapImage_spec with C03.blend_eq_ref")(ctx, scale)
             res.merge(gen)
             order_extra(ctx, scale, res, None, None, None)
         # the same pixel pairs with the source stored as a tilemap layer (the tilemap renderer has
@@ -932,6 +935,12 @@ def feature_mutants(cid, b):
                 add("profile-type", p, 2, v)
             flags = struct.unpack_from("<H", b, p + 2)[0]
             add("profile-gamma", p + 2, 2, flags | 1)
+            # the fixed-gamma flag together with meaningful 16.16 gamma values and every profile type
+            for gamma in (0x00023333, 0x00010000, 0x00008000, 0x0001CCCC, 0x00026666, 0x0000745D, 0, 0xFFFFFFFF):
+                for ptype in (0, 1):
+                    m2 = bytearray(b)
+                    struct.pack_into("<HHI", m2, p, ptype, flags | 1, gamma)
+                    out.append((f"feat/profile-gamma-value/{cid}@{p}={ptype}:{gamma:x}", bytes(m2)))
         elif ty == 0x2004:
             for v in (3, 4, 255, 256, 257, 258, 0xFF00, 65535):
                 add("layer-type", p + 2, 2, v)
@@ -1022,6 +1031,17 @@ def c15_run(ctx, scale):
                       what="control", load_only=True)
     # the tileset that "survives per id": a later tileset chunk with the same id replaces it, so a
     # not-embedded tileset that is replaced is legitimately accepted -> our generator uses unique ids
+    # tilesets without embedded pixels in every cross-reference shape (external-file entry present or
+    # not, used by a layer or not, a second tileset chunk with the same id before or after): the model
+    # decides which of them use the unsupported feature (refusal lemmas of C15), the implementation
+    # must refuse exactly those
+    xr = [(c, b) for c, b in structure_cases() if c.split("/")[0] in ("exttileset", "tsdup")]
+    xm, xi = run_both(xr, outcome_only=True)
+    def xorc(cid, data, impl, model):
+        if vlib.outcome(model) == "err" and vlib.outcome(impl) != "err":
+            return "a tileset without embedded pixels was not refused: " + vlib.outcome_detail(impl)
+        return None
+    compare_cases(res, xr, xm, xi, [], xorc, what="tileset cross-reference shapes", load_only=True)
     m, i = run_both(files, outcome_only=True)
     compare_cases(res, files, m, i, [], must_fail_oracle, what="feature switch", load_only=True)
     for cid, data in files:
@@ -1305,7 +1325,7 @@ def c13_run(ctx, scale):
                  "the end of the last frame does not load; distinct = distinct (file, cut) pairs")
     rng = random.Random(ctx.seed * 271 + scale)
     base = small_wf_files(ctx, scale, (30 if ctx.quick else 400) * scale)
-    base += [(c, b) for c, b in vlib.verif_corpus_wf() if len(b) < 3000]
+    base += [(c, b) for c, b in vlib.verif_corpus_wf() if len(b) < 20000]
     # frames with hundreds of chunks
     big, _ = vlib.gen_cases("large", ctx.seed * 41 + scale, 2 if ctx.quick else 12)
     base += [(c, b) for c, b in big if len(b) < 600000]
@@ -1314,7 +1334,7 @@ def c13_run(ctx, scale):
         end = end_of_last_frame(b)
         if end is None or end > len(b):
             continue
-        if len(b) > 20000:
+        if len(b) > 30000:
             # large files (hundreds of chunks per frame): cuts inside the last frame, mostly near its end
             pieces = vlib.walk_chunks(b)
             cuts = set(range(max(0, end - 80), end))
@@ -1949,6 +1969,7 @@ def c16_run(ctx, scale):
                  "must give B's fresh observation; the harness asserts AsepriteFile: Send + Sync at compile time; "
                  "distinct = distinct files")
     files = [(c, b) for c, b in vlib.corpus_files(max_size=9000) if c != "color-curve.aseprite"]
+    files += vlib.verif_corpus_wf(include_big=True)
     for prof, nq, nt in (("struct", 40, 1500), ("render", 40, 1500), ("tiles", 25, 800)):
         fs, _ = vlib.gen_cases(prof, ctx.seed * 53 + scale, (nq if ctx.quick else nt) * scale)
         files += fs
@@ -2214,9 +2235,11 @@ def c09_run(ctx, scale):
                         return f"frame pixel {k} is {px[4 * k:4 * k + 4].hex()}, expected {want.hex()} (layer visible={visible[k]})"
         return None
     compare_batched(res, files, ["layers", "layer", "frameimg"], orc, what="parents / visibility / frame image", verbose=True)
+    if scale == 1:
+        order_extra(ctx, scale, res, None, None, None)
     res.distribution["forests"] = len(files)
     res.distribution["max_layers"] = maxn
-    gen = wf_routine(["layers", "layer", "frameimg"], [("forest", 150, 20000), ("render", 60, 2000)], "", corpus=False, big=("layers",),
+    gen = wf_routine(["layers", "layer", "frameimg"], [("forest", 150, 20000), ("render", 60, 2000)], "", corpus=False, shared=False,
                      spec_backed="C09.parents_spec / isVisible_spec with C02.frameImage_spec (hidden layers contribute nothing)")(ctx, scale)
     res.merge(gen)
     res.exhaustive = True
